@@ -23,7 +23,14 @@ TInit == /\ RInit(<<>>, "EOD") /\ l = 1 /\ heap = {} /\ files = {} /\ w = [alen 
 
 Pol(p) == IF p = "plain" THEN "PLAIN" ELSE IF p = "eof" THEN "EOF" ELSE "EOD"
 
+MB == INSTANCE MacBinary
+\* ground truth of members from MacLHA archives: what is handed out is MacBinary!Outer of the stored stream
+MacTruthOK(m) == IF "mac" \in DOMAIN m
+                 THEN LET o == MB!Outer(m.mac.inner, m.mac.fname, m.mac.hlen, m.mac.ts)
+                      IN m.data = o.out /\ m.macfail = ~o.ok
+                 ELSE TRUE
 TReset == /\ IsEvent("Reset")
+          /\ Chk("ground truth of a Mac member = MacBinary!Outer", \A i \in 1..Len(Ev.arc) : MacTruthOK(Ev.arc[i]))
           /\ arc' = Ev.arc /\ policy' = Pol(Ev.policy)
           /\ b' = [idx |-> 0, eof |-> FALSE, rem |-> 0, pos |-> 0]
           /\ r' = [ctype |-> "START", cur |-> 0, dec |-> FALSE, dpos |-> 0]
